@@ -185,8 +185,11 @@ def run(ctx):
                         bad = 'does not call deserialize_tuple_struct exactly once'
                     else:
                         ln = [a for a in e[0][1] if a[0] == 'val' and re.match(r'^0x[0-9a-f]+_8$', str(a[2]))]
+                        nm = [a for a in e[0][1] if a[0] == 'lit']
                         if not ln or int(str(ln[0][2]).split('_')[0], 16) != N:
                             bad = 'requests %s elements, the value has %d' % (ln[0][2] if ln else None, N)
+                        elif not nm or nm[0][2] != short:
+                            bad = 'asks the format for a tuple struct named %r, Serialize writes %r: formats that carry the name cannot read the value back' % (nm[0][2] if nm else None, short)
                 done('R-DESER', name, bad, it)
         # ---- bytemuck: Pod only on padding-free element-ordered types
         pods = [m for m in F.impls if m['trait'].endswith('Pod') and 'bytemuck' in m['trait']]
@@ -199,7 +202,9 @@ def run(ctx):
             t = F.types[tyid]
             lv = leaves_plain(F, tyid)
             bad = None
-            if hidden_offsets(F, tyid):
+            if m['self'].rsplit('::', 1)[-1].startswith('BVec'):
+                bad = 'Pod implemented for a mask type: casting arbitrary bytes would create lanes that are neither all-ones nor zero (or bytes that are not valid bools)'
+            elif hidden_offsets(F, tyid):
                 bad = 'Pod implemented for a type with a hidden lane'
             elif sum(s for (o, s, lt) in lv) != t['sz']:
                 bad = 'Pod implemented for a type with padding: size %d, elements cover %d bytes' % (t['sz'], sum(s for (o, s, lt) in lv))
